@@ -10,6 +10,8 @@ package main
 //	H <slot> <np> (<key> <vexpr>)*       v<slot> := (hash key val ...)        untyped hash
 //	W <route> <slot> <key> <vexpr>       one-field write; route h (hset) | d (hset (* (& v)) ..)
 //	                                     | x {v[key] = val} (selector assignment)
+//	                                     | q {v[%f] = val} (selector assignment, quoted field symbol)
+//	                                     | a (hset v [key] val) (key wrapped in a one-element array)
 //	                                     | . {v.f = val} (infix dot path) | s (set v.f val)
 //	P <route> <slot> <np> <f>* <vexpr>   nested dot path {v.f1.f2 = val}; route . | s
 //	R <slot> <n> <np> (<key> <vexpr>)*   (derefSet (& v<slot>) (S<n> key val ...))
@@ -388,6 +390,19 @@ func (r *recRun) step(k int, t []string) string {
 				return bad
 			}
 			text = fmt.Sprintf("{%s[%s] = %s}", x, key, val)
+		case "q":
+			// selector assignment with a quoted field symbol: {v[%f0] = val}
+			if t[3][0] != ':' {
+				return bad
+			}
+			text = fmt.Sprintf("{%s[%%%s] = %s}", x, strings.TrimSuffix(key, ":"), val)
+		case "a":
+			// hset with the key wrapped in a one-element array: (hset v [%f0] val), (hset v ["f0"] val), (hset v [5] val)
+			k := key
+			if t[3][0] == ':' {
+				k = "%" + strings.TrimSuffix(key, ":")
+			}
+			text = fmt.Sprintf("(hset %s [%s] %s)", x, k, val)
 		case ".", "s":
 			if t[3][0] != ':' {
 				return bad
